@@ -6,6 +6,12 @@ Decided (table and grammar agreement against an independent transcription of RFC
              subframe type, residual coding method, QLP precision, LPC shift, sync code, fixed predictors)
   C03.wide   each side-channel arm of the streaming and of the structural decoder has the 33-bit alternative
   C03.md5    MD5 agreement is reported only on the equality edge
+  C03.wasted  every subframe type is read with the effective depth (bits - wasted), the wasted-bits shift is applied to all
+              four types exactly when wasted > 0, fixed predictors use shift 0, LPC the 5-bit shift read from the stream
+  C03.part    both decoders accept a residual partition layout under the RFC's condition (count <= block, exact division,
+              first partition longer than the predictor order / chunk count == partition count)
+  C03.utf8    the coded frame number: every continuation byte is checked to start with 0b10, 6 payload bits each
+  (C03.wide also requires |side| % 2 as the parity term of both mid-side reconstructions)
 Not decided: the arithmetic of reconstruction (prediction, mid/side) against the RFC for all sample values.
 """
 from rules.common import *
